@@ -1,6 +1,7 @@
 import Exetera.Props.C19
 import Exetera.Props.C10.Basic
 import Exetera.Model.KernelSitesJoinFlat
+import Exetera.Model.KernelPathsJoinFlat
 /-!
 # C10 — the legacy join helpers behind `Session.ordered_merge_*` (owning property: C19)
 
@@ -14,6 +15,14 @@ namespace Exetera.Props.C10
 open Exetera Exetera.Spec Exetera.Join Exetera.JoinFlat Exetera.JoinOld
 
 theorem access_sites_covered_join_flat : ∀ k ∈ KernelSites.joinFlatSites, lookup k.1 = some k := by decide +kernel
+
+/-- the PATH CONDITION of every subscript occurrence in these kernels (enclosing loop guards, `if` / `elif` tests, negated
+    `else` branches and early exits), as regenerated from the current source (`Gen/KernelPaths.lean`), is exactly the one the
+    model was written against (`Model/KernelPathsJoinFlat.lean`): dropping or changing a test that dominates a subscript breaks
+    the build; and the table covers exactly the kernels of the site table -/
+theorem access_paths_covered_join_flat :
+    (∀ k ∈ KernelPaths.joinFlatPaths, lookupPaths k.1 = some k) ∧
+    KernelPaths.joinFlatPaths.map (·.1) = KernelSites.joinFlatSites.map (·.1) := by decide +kernel
 
 example : KernelSites.joinFlatSites.length = 9 := by decide
 
